@@ -984,6 +984,11 @@ Definition check_case (c : case) : Z := check_from init_st 0 c.
 Inductive hop :=
 | H_create (pid : Z) (t : typ) (a : list arg) (newid : Z)  (* manager.<typeid>(args) *)
 | H_copy (k : nat) (pid : Z)                               (* pickle proxy k, unpickle in pid *)
+| H_inherit (k : nat) (pid : Z)                            (* proxy k travels inside a Process object to a
+                                                              spawned / forkserver child pid: RebuildProxy
+                                                              with incref=False (no request), then the hook
+                                                              registered by BaseProxy.__init__ runs there:
+                                                              _after_fork -> _incref *)
 | H_stale (pid id : Z)                                     (* unpickle a token whose referent may be gone *)
 | H_drop (k : nat)
 | H_call (k : nat) (m : meth) (a : list arg) (newid : Z).
@@ -1006,6 +1011,11 @@ Definition hstep (y : sys) (h : hop) : sys * cobs :=
     | _ => (y1, o1)
     end
   | H_copy k pid =>
+    match nth_error (y_proxies y) k with
+    | Some p => cstep y (K_proxy pid (p_id p) false)
+    | None => (y, CO_noop)
+    end
+  | H_inherit k pid =>
     match nth_error (y_proxies y) k with
     | Some p => cstep y (K_proxy pid (p_id p) false)
     | None => (y, CO_noop)
